@@ -188,7 +188,7 @@ prop(
 
 prop(
     "C08",
-    contract_modules=["contracts.c13"],
+    contract_modules=["contracts.c13", "contracts.c15"],
     bcc="c08",
     level="other",
     claimed=False,
@@ -227,6 +227,17 @@ prop(
     claimed=False,
     trusted=["numpy.object-arrays"],
     assumptions=["compute_distances(periodic=True) returns minimum-image distances (contract of C05)"],
+    explanation="",
+)
+
+prop(
+    "C15",
+    contract_modules=["contracts.c15"],
+    bcc="c15",
+    level="other",
+    claimed=False,
+    trusted=["vectorize_sse.h:fvec4", "libm.axioms", "C.int"],
+    assumptions=["enumerators are modelled by an injective numbering (only compared for equality)"],
     explanation="",
 )
 
